@@ -37,6 +37,15 @@ func (eng *Engine) typeID(t types.Type) int {
 	return id
 }
 
+func (eng *Engine) typeID2(k string) int {
+	if id, ok := eng.typeIDs[k]; ok {
+		return id
+	}
+	id := len(eng.typeIDs) + 1
+	eng.typeIDs[k] = id
+	return id
+}
+
 func (eng *Engine) funcID(f *ssa.Function) int {
 	if id, ok := eng.funcIDs[f]; ok {
 		return id
